@@ -165,6 +165,8 @@ class Gen:
         placement = {}
         for h in HDRS[:nh]:
             places = [d for d in DIRS if r.random() < 0.5]
+            if r.random() < 0.25:
+                places.append("")      # also at the top of the tree (the analysis root): never searched unless named by a flag
             if not places:
                 places = [r.choice(DIRS)]
             for d in places:
@@ -203,6 +205,12 @@ class Gen:
                 if incs:
                     files[s].append(r.choice(incs))
                     files[s].append(self.marker())
+        if r.random() < 0.2:
+            # a header that includes itself for a second pass (X-macro style): the nested visit happens while the
+            # first one is still open, takes the other branch and defines a macro the includer tests afterwards
+            files["src/twopass.h"] = ["#ifndef TWOPASS_SECOND", "#define TWOPASS_SECOND", self.marker(), '#include "twopass.h"', self.marker(),
+                                      "#else", self.marker(), "#define TWOPASS_DONE 1", "#endif"]
+            files["src/main.c"] = ['#include "twopass.h"', "#ifdef TWOPASS_DONE", self.marker(), "#else", self.marker(), "#endif"] + files["src/main.c"]
         for e in entries:
             if self.forced and r.random() < 0.3:
                 e["forced"] = self.forced_headers(files, e["flags"], e["file"])
